@@ -66,8 +66,10 @@ class Ctx:
 
 
 def _java(args, env, cwd, timeout, heap="2g", young="128m", gcthreads=4, stack="64m"):
+    jtmp = os.path.join(os.path.dirname(os.path.abspath(cwd)), "jtmp")     # TLC unpacks its standard modules into java.io.tmpdir on every run
+    os.makedirs(jtmp, exist_ok=True)
     cmd = ["java", "-XX:+UseParallelGC", "-XX:ParallelGCThreads=%d" % gcthreads, "-Xss" + stack,
-           "-Xmx" + heap, "-Xmn" + young, "-cp", CP, "tlc2.TLC"] + args
+           "-Xmx" + heap, "-Xmn" + young, "-Djava.io.tmpdir=" + jtmp, "-cp", CP, "tlc2.TLC"] + args
     e = dict(os.environ)
     e.update(env)
     e.pop("JAVA_TOOL_OPTIONS", None)
